@@ -3,6 +3,7 @@
 //! two runs, either the token list or the located error.
 //!
 //! input : `{"k":"lex","bytes":[b0,b1,...]}` or `{"k":"lex","hex":"6162.."}`;
+//!         optional `"stretch": {"at","byte","count"}` inserts a run of one byte (see `apply_stretch`);
 //!         optional `"values": false` omits token values (kinds and spans only);
 //!         optional `"compact": true` writes every token as the array
 //!         `[kind, start, end]` or `[kind, start, end, value]` instead of an object.
@@ -79,8 +80,8 @@ fn lex_once(input: &[u8], with_ws: bool, values: bool, compact: bool) -> J {
                         "Number".into(),
                         Some(json!({"digits": n.digits, "exp": n.exp})),
                     ),
-                    TokenKind::String(s) => ("String".into(), Some(code_points(s))),
-                    TokenKind::TextBlock(s) => ("TextBlock".into(), Some(code_points(s))),
+                    TokenKind::String(s) => ("String".into(), values.then(|| code_points(s))),
+                    TokenKind::TextBlock(s) => ("TextBlock".into(), values.then(|| code_points(s))),
                 };
                 let value = if values { value } else { None };
                 if ctx != span_ctx {
@@ -146,8 +147,27 @@ fn input_bytes(case: &J) -> Result<Vec<u8>, String> {
     Err("lex case needs `bytes` or `hex`".into())
 }
 
+/// `"stretch": {"at": offset, "byte": b, "count": k}`: k copies of byte b are inserted at the
+/// (0-based) offset of the decoded input before it is used (long inputs without long case lines).
+pub fn apply_stretch(case: &J, input: Vec<u8>) -> Result<Vec<u8>, String> {
+    let Some(st) = case.get("stretch") else {
+        return Ok(input);
+    };
+    let at = st.get("at").and_then(|v| v.as_u64()).ok_or("stretch.at")? as usize;
+    let byte = st.get("byte").and_then(|v| v.as_u64()).ok_or("stretch.byte")?;
+    let count = st.get("count").and_then(|v| v.as_u64()).ok_or("stretch.count")? as usize;
+    if at > input.len() || byte > 255 {
+        return Err("stretch out of range".into());
+    }
+    let mut v = Vec::with_capacity(input.len() + count);
+    v.extend_from_slice(&input[..at]);
+    v.resize(at + count, byte as u8);
+    v.extend_from_slice(&input[at..]);
+    Ok(v)
+}
+
 pub fn run(case: &J) -> J {
-    let input = match input_bytes(case) {
+    let input = match input_bytes(case).and_then(|v| apply_stretch(case, v)) {
         Ok(v) => v,
         Err(e) => return json!({"tool_error": e}),
     };
